@@ -21,7 +21,7 @@ from harness.common import REPO, CoqFailure, coq_list, coqc_many, parse_nat_list
 PROP = 'theories/Props/C07.v'
 HEADER = 'From Coq Require Import List Bool Arith.\nFrom BT Require Import C07.Fwd C07.Corr.\nImport ListNotations.\n'
 SHAPES = ['K', 'List[K]', 'Optional[K]', 'Union[K, int]', 'Dict[str, K]', 'Tuple[K, ...]', 'Tuple[int, K]', 'List[Optional[K]]', 'type[K]']
-EARLY = ('sibling_attr_leak', 'global_early', 'local_early', 'class_attr', 'attr_shadows_global', 'outer_attr_hidden', 'local_shadows_global')
+EARLY = ('attr_shadows_local', 'sibling_attr_leak', 'global_early', 'local_early', 'class_attr', 'attr_shadows_global', 'outer_attr_hidden', 'local_shadows_global')
 LEAVES_NONE = [('unrelated', 3), ('int', 5), ('none', 6)]
 LEAVES_K = [('instance', 1), ('subclass_instance', 2), ('unrelated', 3), ('same_name_unrelated', 4), ('int', 5), ('none', 6)]
 OBS = {'ok': 0, 'violation': 1, 'fwdref': 2}
@@ -58,6 +58,8 @@ def all_specs():
         for depth in (1, 2):
             for decor in ('function', 'class'):
                 out.append({'placement': 'method_in_function', 'depth': depth, 'shape': shape, 'target': 'sibling_attr_leak', 'order': '-',
+                            'decor': decor, 'spellings': ['evaluated', 'quoted', 'quoted_inner', 'postponed']})
+                out.append({'placement': 'method_in_function', 'depth': depth, 'shape': shape, 'target': 'attr_shadows_local', 'order': '-',
                             'decor': decor, 'spellings': ['evaluated', 'quoted', 'quoted_inner', 'postponed']})
     return out
 
@@ -97,6 +99,15 @@ def model_case(spec):
             ev = [('return',)] + (calls(False) if order == 'call_define_call' else []) + [('defglobal', 1)] + calls(True)
         else:
             ev = calls(False) + [('return',)] + calls(False)
+    elif pl == 'method_in_function' and tg == 'attr_shadows_local':
+        # class variable K (1) over the enclosing function's local K (7): class decoration sees the class's attributes first;
+        # decoration of the method inside the class body sees the body's locals before the function's
+        nested, alive = True, True
+        if spec['decor'] == 'class':
+            attrs, pl0 = [1], [7]
+        else:
+            pl0 = [1, 7]
+        ev = calls(True) + [('return',)] + calls(True)
     elif pl == 'method_in_function':
         # the classes live in a function: its frame is found either way; the global K is what the name means
         nested, alive, g0 = True, True, [1]
@@ -184,7 +195,7 @@ def run(ctx):
                 'class} x {K a module global / a local of the enclosing function / a class attribute / the class itself / the root class / '
                 'defined nowhere} x {defined before decoration; after it; after a first call; never; enclosing function running / returned} '
                 'x {evaluated (when Python can), quoted, name-only quoted, postponed}; each probe calls with 6 (3 while K is undefined) '
-                'objects wrapped to the shape; quick = a seeded sample of 300 of the program families (count in the evidence file), thorough = all; '
+                'objects wrapped to the shape; quick = two hint shapes per (placement, depth, target, order, decoration) family, thorough = all nine; '
                 'non-trivial = K not bound at decoration, or placement not module; distinct = distinct (family, spelling)')
     ctx.assumptions += ['the own name of a class nested inside another class, used by a method decorated individually (not through the class), '
                         'is outside the generator: no module global of that name ever exists, and Python itself could not evaluate it',
@@ -205,7 +216,13 @@ def run(ctx):
     specs = all_specs()
     ctx.extra['program_families'] = len(specs)
     if ctx.tier == 'quick':
-        specs = ctx.rng.sample(specs, 300)
+        # stratified: every (placement, depth, target, order, decoration) family with one or two of the nine hint shapes
+        groups = {}
+        for sp_ in specs:
+            groups.setdefault((sp_['placement'], sp_['depth'], sp_['target'], sp_['order'], sp_.get('decor')), []).append(sp_)
+        specs = []
+        for key in sorted(groups, key=str):
+            specs += ctx.rng.sample(groups[key], min(len(groups[key]), 2))
     cdir = os.path.join(os.path.dirname(os.path.dirname(os.path.dirname(os.path.abspath(__file__)))), 'corpus', 'C07')
     if os.path.isdir(cdir):                      # minimised past failures run first
         for fn in sorted(os.listdir(cdir)):
